@@ -65,10 +65,11 @@ def canonical_violations(t):
 
     cells = list(t.cells)
     probs = []
-    if list(iter(t)) != cells or [t[i] for i in range(len(cells))] != cells:
-        probs.append("iter()/indexing disagree with .cells")
     if len({type(c).__name__ for c in cells}) > 1:
-        probs.append("mixed cell classes")
+        # nothing else can be compared meaningfully (cross-class < and == are not defined)
+        return ["mixed cell classes: " + ", ".join(sorted({type(c).__name__ for c in cells}))]
+    if any(a is not b for a, b in zip(iter(t), cells)) or any(t[i] is not cells[i] for i in range(len(cells))):
+        probs.append("iter()/indexing disagree with .cells")
     for a, b in zip(cells, cells[1:]):
         if b < a:
             probs.append(f"not sorted: {b.coordinates} < {a.coordinates}")
@@ -159,8 +160,13 @@ def op_sequence(ctx, g: Gen, t, length):
     for _ in range(length):
         ops = ["filter", "clip", "select", "right_edge", "slice", "index_slice", "add", "to_incremental",
                "to_cumulative", "aggregate", "summarize", "merge", "coalesce", "derive_fields", "derive_metadata",
-               "replace", "make_right_triangle", "make_right_diagonal", "split"]
+               "replace", "make_right_triangle", "make_right_diagonal", "split", "period_merge", "add_statics",
+               "thin", "fill_forward_gaps", "backfill", "convert_currency", "binary_roundtrip", "json_roundtrip",
+               "blend", "remove_static_details", "shift_origin", "add_cross_basis_after", "add_cross_basis_after"]
         op = r.choice(ops)
+        forced_cross = op == "add_cross_basis_after"
+        if forced_cross:
+            op = "add"
         try:
             if op == "filter":
                 k = r.randint(0, 3)
@@ -184,8 +190,31 @@ def op_sequence(ctx, g: Gen, t, length):
                 else:
                     t2 = t[a: a + r.randint(0, 8): step]
             elif op == "add":
-                other, _ = g.triangle(basis="inc" if t.is_incremental else "cum", n_slices=r.randint(1, 2))
-                t2 = t + other
+                same = "inc" if t.is_incremental else "cum"
+                flip = "cum" if t.is_incremental else "inc"
+                # mostly the same basis; sometimes the other one (must be refused: a Triangle holds one class),
+                # with periods strictly after / before t's so that no reordering is needed
+                u = 0.9 if (forced_cross and len(t)) else r.random()
+                if u < 0.6 or len(t) == 0:
+                    other, _ = g.triangle(basis=same, n_slices=r.randint(1, 2))
+                elif u < 0.8:
+                    other, _ = g.triangle(basis=flip, n_slices=r.randint(1, 2))
+                else:
+                    # the other basis, one cell that sorts strictly AFTER every cell of t (same metadata as
+                    # t's last cell, later period): nothing needs re-sorting, but the classes are mixed
+                    from bermuda import CumulativeCell, IncrementalCell, Triangle as _T
+
+                    last = t.cells[-1]
+                    ps = last.period_start + datetime.timedelta(days=800)
+                    pe = ps + datetime.timedelta(days=30)
+                    if flip == "inc":
+                        oc = IncrementalCell(period_start=ps, period_end=pe, prev_evaluation_date=ps - datetime.timedelta(days=1),
+                                             evaluation_date=pe, values=dict(last.values), metadata=last.metadata)
+                    else:
+                        oc = CumulativeCell(period_start=ps, period_end=pe, evaluation_date=pe,
+                                            values=dict(last.values), metadata=last.metadata)
+                    other = _T([oc])
+                t2 = (t + other) if r.random() < 0.7 else sum([t, other])
             elif op == "to_incremental":
                 t2 = t.to_incremental()
             elif op == "to_cumulative":
@@ -217,6 +246,47 @@ def op_sequence(ctx, g: Gen, t, length):
             elif op == "split":
                 parts = list(t.split(["lob"]).values()) if len(t) else []
                 t2 = r.choice(parts) if parts else t
+            elif op == "period_merge":
+                t2 = t.period_merge(t.right_edge.select(t.fields[:1]), suffix="_edge") if t.fields else t
+            elif op == "add_statics":
+                t2 = t.add_statics(t.right_edge, statics=t.fields[:1]) if t.fields else t
+            elif op == "thin":
+                t2 = t.thin(max(1, t.num_samples - 1), seed=r.randint(0, 5))
+            elif op == "fill_forward_gaps":
+                from bermuda.utils.fill import fill_forward_gaps
+
+                # month-aligned triangles with a positive evaluation resolution only (the operator
+                # loops over month lags; day-level triangles make it run away)
+                if not (len(t) and t.eval_date_resolution and t.eval_date_resolution > 0 and t.is_disjoint):
+                    raise ValueError("not applicable")
+                t2 = fill_forward_gaps(t)
+            elif op == "backfill":
+                from bermuda.utils.backfill import backfill
+
+                if not (len(t) and t.eval_date_resolution and t.eval_date_resolution > 0 and t.is_disjoint):
+                    raise ValueError("not applicable")
+                t2 = backfill(t, static_fields=t.fields[:1])
+            elif op == "convert_currency":
+                from bermuda.utils import convert_currency
+
+                t2 = convert_currency(t.derive_metadata(currency="EUR"), "USD", {"EUR": 2.0})
+            elif op == "binary_roundtrip":
+                import os
+
+                pth = f"/verif/build/C01/op_{os.getpid()}.trib"
+                t.to_binary(pth)
+                t2 = type(t).from_binary(pth)
+                os.unlink(pth)
+            elif op == "json_roundtrip":
+                t2 = type(t).from_dict(t.to_dict())
+            elif op == "blend":
+                t2 = t.blend([t], method="linear")
+            elif op == "remove_static_details":
+                t2 = t.remove_static_details()
+            elif op == "shift_origin":
+                from bermuda.utils import shift_origin as so
+
+                t2 = so.shift_origin(t, t.right_edge)
         except Exception as ex:  # noqa: BLE001  -- refusals are fine, a chain simply continues
             trace.append(f"{op}!{type(ex).__name__}")
             ctx.hist("op:refused")
@@ -333,7 +403,40 @@ def run(ctx):
             idx = [int(x) for x in vals[-1].strip("[]").replace("%nat", "").split(";") if x.strip()]
             for i in idx:
                 mism.append(("model!=impl", chunk[i][2], chunk[i][0][:300]))
-        ctx.obligation("correspondence: mk_triangle model = Triangle(...) and wf_triangle(impl output)", not mism, repr(mism[:3]))
+        # Metadata `<` and `==`: model vs implementation on all pairs of the universe
+        try:
+            rep = []
+            for m in universe:
+                try:
+                    rep.append((m, ct.cmeta(m)))
+                except ct.NotRepresentable:
+                    pass           # e.g. an infinite limit: outside the model's number domain
+            terms = [t for _, t in rep]
+            uni2 = [m for m, _ in rep]
+            n = len(uni2)
+            rows = []
+            for i in range(n):
+                for j in range(n):
+                    lt, eq = uni2[i] < uni2[j], uni2[i] == uni2[j]
+                    rows.append(f"(meta_pair_ok (nth {i} U default_meta) (nth {j} U default_meta) {str(lt).lower()} {str(eq).lower()})")
+            f = ctx.build / "meta_pairs.v"
+            f.write_text(ct.COQ_HEADER + "From Bermuda Require Import Model.Order.\n"
+                         "Definition U : list meta := [\n" + ";\n".join(terms) + "].\n"
+                         "Definition meta_pair_ok (a b : meta) (lt eq : bool) : bool :=\n"
+                         "  match meta_lt a b with Some r => Bool.eqb r lt | None => false end && Bool.eqb (meta_pyeq a b) eq.\n"
+                         "Definition cases : list bool := [\n" + ";\n".join(rows) + "].\nEval vm_compute in failing cases.\n")
+            rc, out = ctx.coqc(f, timeout=600)
+            vals = parse_coq_eval(out)
+            if rc != 0 or not vals:
+                mism.append(("coqc-failed", f.name, out[-500:]))
+            else:
+                for i in [int(x) for x in vals[-1].strip("[]").replace("%nat", "").split(";") if x.strip()]:
+                    mism.append(("meta `<`/`==` model!=impl", repr(uni2[i // n]), repr(uni2[i % n])))
+            ctx.count(evaluations=n * n, traces=n * n)
+        except ct.NotRepresentable as ex:
+            ctx.notes.append(f"metadata universe not representable: {ex}")
+        ctx.obligation("correspondence: mk_triangle model = Triangle(...), wf_triangle(impl output), Metadata </== on all universe pairs",
+                       not mism, repr(mism[:3]))
     # report
     for kind, what, p1, p2, it in fails[:3]:
         ctx.violation("impl-violation", f"{kind}: {what}",
